@@ -46,7 +46,7 @@ def one(patch: str, with_suite: bool, runs: str | None) -> bool:
             return False
         if with_suite and not run_suite(dst):
             print(f"  {name}: mutant is killed by the repository's own suite (still checking ours)")
-        env = dict(os.environ, VERIF_REPO=dst)
+        env = dict(os.environ, VERIF_REPO=dst, VERIF_NO_EVIDENCE="1")
         if runs:
             env["VERIF_RUNS"] = runs
         r = subprocess.run([os.path.join(VERIF, "check"), cid, "--tier", "quick"], env=env,
